@@ -486,3 +486,194 @@ Proof.
   - unfold bytes in *. rewrite Ec, Enth. unfold nsec, fat_sectors_of, mini_cutoff.
     destruct (Z.leb_spec 4096 (Z.of_nat (length (nth j contents [])))); lia.
 Qed.
+
+(* ---------- the DIFAT: a reader finds every FAT sector, in order ---------- *)
+Lemma seqZ_app : forall n m a, seqZ a n ++ seqZ (a + Z.of_nat n) m = seqZ a (n + m).
+Proof.
+  induction n as [|k IH]; intros m a; cbn [seqZ app plus].
+  - replace (a + Z.of_nat 0) with a by lia. reflexivity.
+  - f_equal. rewrite <- IH. f_equal. f_equal. lia.
+Qed.
+
+Definition nonfree (v : Z) : bool := negb (v =? FREE).
+
+Lemma msat_slots g : 0 <= g_difat g -> forall n a, 0 <= a ->
+  filter nonfree (map (msat_slot g) (seqZ a n)) =
+  seqZ (g_difat g + a) (Z.to_nat (Z.min (Z.of_nat n) (Z.max 0 (g_fat g - a)))).
+Proof.
+  intros Hd. induction n as [|m IH]; intros a Ha.
+  - cbn [seqZ map filter]. replace (Z.to_nat _) with O by lia. reflexivity.
+  - cbn [seqZ map filter]. destruct (Z.ltb_spec a (g_fat g)) as [Hlt|Hge].
+    + assert (Es : msat_slot g a = g_difat g + a) by (unfold msat_slot; destruct (Z.ltb_spec a (g_fat g)); lia).
+      rewrite Es. unfold nonfree at 1. destruct (Z.eqb_spec (g_difat g + a) FREE) as [E|_]; [unfold FREE in E; lia|]. cbn [negb].
+      rewrite IH by lia.
+      replace (Z.to_nat (Z.min (Z.of_nat (S m)) (Z.max 0 (g_fat g - a)))) with (S (Z.to_nat (Z.min (Z.of_nat m) (Z.max 0 (g_fat g - (a + 1)))))) by lia.
+      cbn [seqZ]. replace (g_difat g + (a + 1)) with (g_difat g + a + 1) by lia. reflexivity.
+    + assert (Es : msat_slot g a = FREE) by (unfold msat_slot; destruct (Z.ltb_spec a (g_fat g)); [lia|reflexivity]).
+      rewrite Es. unfold nonfree at 1. rewrite Z.eqb_refl. cbn [negb]. rewrite IH by lia.
+      replace (Z.to_nat (Z.min (Z.of_nat (S m)) (Z.max 0 (g_fat g - a)))) with O by lia.
+      replace (Z.to_nat (Z.min (Z.of_nat m) (Z.max 0 (g_fat g - (a + 1))))) with O by lia. reflexivity.
+Qed.
+
+Lemma msat_walk_chain g : 0 <= g_difat g -> g_fat g <= 109 + 127 * g_difat g ->
+  127 * (g_difat g - 1) < g_fat g - 109 ->
+  forall n o fuel, 0 <= o -> Z.of_nat n = g_difat g - o -> (0 < n)%nat -> (n <= fuel)%nat ->
+  msat_walk g fuel o = Some (seqZ (g_difat g + 109 + 127 * o) (Z.to_nat (Z.max 0 (g_fat g - 109 - 127 * o)))).
+Proof.
+  intros Hd Hcov Hfew. induction n as [|k IH]; intros o fuel Ho Hn Hpos Hfuel; [lia|].
+  destruct fuel as [|fuel']; [lia|]. cbn [msat_walk].
+  destruct (Z.eqb_spec o EOC) as [E|_]; [unfold EOC in E; lia|].
+  unfold msat_sector. rewrite last_last, removelast_last.
+  fold nonfree. rewrite (msat_slots g Hd 127 (109 + 127 * o)) by lia.
+  destruct (Z.eqb_spec o (g_difat g - 1)) as [Elast|Nlast].
+  - assert (W : msat_walk g fuel' EOC = Some []) by (destruct fuel'; reflexivity). rewrite W, app_nil_r.
+    f_equal. f_equal; lia.
+  - rewrite (IH (o + 1) fuel') by lia.
+    f_equal.
+    replace (g_difat g + 109 + 127 * (o + 1)) with (g_difat g + (109 + 127 * o) + Z.of_nat (Z.to_nat (Z.min (Z.of_nat 127) (Z.max 0 (g_fat g - (109 + 127 * o)))))).
+    + rewrite seqZ_app. f_equal; lia.
+    + destruct (Z.le_gt_cases 127 (g_fat g - (109 + 127 * o))) as [Hge|Hlt]; [lia|].
+      (* fewer than 127 FAT sectors left for this DIFAT sector although another one follows: excluded, the layout
+         uses the fewest DIFAT sectors *)
+      exfalso. clear IH. lia.
+Qed.
+
+Theorem msat_read_all fuel sizes npaths g :
+  (forall s, In s sizes -> 0 <= s) -> 0 <= npaths -> locate_with fuel sizes npaths = Some g ->
+  msat_read g = Some (seqZ (g_difat g) (Z.to_nat (g_fat g))).
+Proof.
+  intros Hs Hn Hloc.
+  pose proof (locate_facts fuel sizes npaths g Hs Hn Hloc) as F. cbv zeta in F.
+  destruct F as (Hd & Hf & _).
+  pose proof (locate_with_geometry fuel sizes npaths g Hs Hn Hloc) as G. cbv zeta in G.
+  destruct G as (_ & Hcov & Edif & _).
+  destruct (difat_covers (g_fat g) Hf) as (_ & _ & Hfew). rewrite <- Edif in Hfew.
+  unfold msat_read, msat_header. fold nonfree. rewrite (msat_slots g Hd 109 0) by lia.
+  destruct (Z.eqb_spec (g_difat g) 0) as [E0|N0].
+  - cbn [msat_walk]. rewrite Z.eqb_refl. rewrite app_nil_r. f_equal. f_equal; lia.
+  - assert (Hbig : g_fat g > 109).
+    { rewrite Edif in N0. unfold difat_for in N0. destruct (Z.gtb_spec (g_fat g) 109); lia. }
+    rewrite (msat_walk_chain g Hd Hcov (Hfew Hbig) (Z.to_nat (g_difat g)) 0 (S (Z.to_nat (g_difat g)))) by lia.
+    f_equal.
+    replace (g_difat g + 109 + 127 * 0) with (g_difat g + 0 + Z.of_nat (Z.to_nat (Z.min (Z.of_nat 109) (Z.max 0 (g_fat g - 0))))) by lia.
+    rewrite seqZ_app. f_equal; lia.
+Qed.
+
+(* ---------- mini streams through the container ---------- *)
+Lemma blocks_of_block_length : forall n bsz c b, In b (blocks_of bsz n c) -> length b = bsz.
+Proof.
+  induction n as [|m IH]; intros bsz c b Hin; cbn [blocks_of] in Hin; [destruct Hin|].
+  destruct Hin as [<-|Hin]; [|exact (IH _ _ _ Hin)].
+  rewrite app_length, repeat_length. pose proof (firstn_le_length bsz c). rewrite firstn_length. lia.
+Qed.
+
+Lemma put_blocks_length : forall bs (img : image) s bsz, (forall k, length (img k) = bsz) ->
+  (forall b, In b bs -> length b = bsz) -> forall k, length (put_blocks img s bs k) = bsz.
+Proof.
+  induction bs as [|b r IH]; intros img s bsz Himg Hbs k; cbn [put_blocks]; [apply Himg|].
+  apply IH.
+  - intros k'. destruct (Z.eqb_spec k' s); [apply Hbs; now left|apply Himg].
+  - intros b' Hin. apply Hbs. now right.
+Qed.
+
+Lemma put_streams_length : forall starts lens contents bsz (img : image), (forall k, length (img k) = bsz) ->
+  forall k, length (put_streams bsz img starts lens contents k) = bsz.
+Proof.
+  induction starts as [|s st IH]; intros lens contents bsz img Himg k; [apply Himg|].
+  destruct lens as [|n ln]; [apply Himg|]. destruct contents as [|c cs]; [apply Himg|].
+  cbn [put_streams]. apply IH. intros k'. apply put_blocks_length; [assumption|]. apply blocks_of_block_length.
+Qed.
+
+(* slicing the concatenation of equal-sized pieces gives the pieces back *)
+Lemma slice_concat : forall n (f : Z -> bytes) B a m, (forall k, length (f k) = B) -> (m < n)%nat ->
+  firstn B (skipn (B * m) (concat (map f (seqZ a n)))) = f (a + Z.of_nat m).
+Proof.
+  induction n as [|n' IH]; intros f B a m Hlen Hm; [lia|].
+  cbn [seqZ map concat]. destruct m as [|m'].
+  - rewrite Nat.mul_0_r. cbn [skipn]. rewrite firstn_app, Hlen, Nat.sub_diag, firstn_O, app_nil_r.
+    rewrite <- (Hlen a) at 1. rewrite firstn_all. f_equal. lia.
+  - rewrite skipn_app, Hlen. rewrite (skipn_all2 (f a)) by (rewrite Hlen; lia). cbn [app].
+    replace (B * S m' - B)%nat with (B * m')%nat by lia.
+    rewrite IH by (assumption || lia). f_equal. lia.
+Qed.
+
+(* the writer and a reader, end to end, for a stream below 4096 bytes (EncryptionInfo): the mini sectors are stored
+   by the mini FAT layout, the container holding them is stored by the FAT layout as the last chain; a reader gets
+   the container back through the FAT and the stream back through the mini FAT and the container *)
+Theorem mini_stream_read_back fuel contents npaths g t st mt mst img mfb db j :
+  let sizes := map (fun c : bytes => Z.of_nat (length c)) contents in
+  let mimg := put_streams 64 (fun _ => repeat 0 64) mst (map nmini sizes) contents in
+  let cb := container_bytes mimg (Z.to_nat (g_mini g)) in
+  0 <= npaths -> locate_with fuel sizes npaths = Some g -> fat_table g sizes = (t, st) -> minifat_table sizes = (mt, mst) ->
+  (j < length contents)%nat -> 0 < Z.of_nat (length (nth j contents [])) < 4096 ->
+  read_stream (put_streams 512 img st (fat_lens g sizes) (mfb :: db :: contents ++ [cb])) t
+              (Z.to_nat ((g_mini g + 7) / 8)) (g_ministream_start g - 1) (length cb) = Some cb /\
+  read_mini cb mt (nmini (Z.of_nat (length (nth j contents [])))) (nth j mst FREE) (length (nth j contents []))
+  = Some (nth j contents []).
+Proof.
+  intros sizes mimg cb Hn Hloc Ht Hmt Hj Hsz.
+  assert (Hs : forall s, In s sizes -> 0 <= s).
+  { intros s Hin. unfold sizes in Hin. apply in_map_iff in Hin. destruct Hin as (c & <- & _). lia. }
+  pose proof (locate_facts fuel sizes npaths g Hs Hn Hloc) as F. cbv zeta in F.
+  destruct F as (Hd & Hf & Hmf & Hdir & Hmini & Emini & Ebig & Hbig & Emf & Hsize).
+  destruct (fat_table_chains fuel sizes npaths g t st Hs Hn Hloc Ht) as (_ & Hlen & Hwalk & Hord & _ & _ & _ & Hcont).
+  destruct (minifat_table_chains fuel sizes npaths g mt mst Hs Hn Hloc Hmt) as (_ & Hmlen & Hmwalk & Hmord & _ & Hmin).
+  assert (Lsz : length sizes = length contents) by (unfold sizes; apply map_length).
+  assert (Hlenlens : length (fat_lens g sizes) = S (S (S (length contents)))).
+  { unfold fat_lens. cbn [length]. rewrite app_length, map_length. cbn [length]. lia. }
+  assert (Hmimg : forall k, length (mimg k) = 64%nat).
+  { intros k. unfold mimg. apply put_streams_length. intros. apply repeat_length. }
+  assert (Lcb : length cb = (64 * Z.to_nat (g_mini g))%nat).
+  { unfold cb, container_bytes. generalize (Z.to_nat (g_mini g)) at 1 2. generalize 0.
+    intros a n. revert a. induction n as [|n' IHn]; intros a; cbn [seqZ map concat]; [cbn [length]; lia|].
+    rewrite app_length, Hmimg, IHn. lia. }
+  assert (Hms0 : 0 <= (g_mini g + 7) / 8) by (apply Z.div_pos; lia).
+  set (jc := S (S (length contents))).
+  assert (Elen : nth jc (fat_lens g sizes) O = Z.to_nat ((g_mini g + 7) / 8)).
+  { unfold jc, fat_lens. cbn [nth]. rewrite app_nth2 by (rewrite map_length; lia). rewrite map_length, Lsz, Nat.sub_diag. reflexivity. }
+  assert (Ecb : nth jc (mfb :: db :: contents ++ [cb]) [] = cb).
+  { unfold jc. cbn [nth]. rewrite app_nth2 by lia. rewrite Nat.sub_diag. reflexivity. }
+  assert (Hjm : (j < length (map nmini sizes))%nat) by (rewrite map_length; lia).
+  assert (Enm : nth j (map nmini sizes) O = nmini (Z.of_nat (length (nth j contents [])))).
+  { rewrite (nth_indep _ O (nmini 0)) by assumption. rewrite map_nth.
+    unfold sizes. rewrite (nth_indep _ 0 (Z.of_nat (length (@nil Z)))) by (rewrite map_length; lia).
+    rewrite (map_nth (fun c : bytes => Z.of_nat (length c))). reflexivity. }
+  assert (Hnm : Z.of_nat (nmini (Z.of_nat (length (nth j contents [])))) = (Z.of_nat (length (nth j contents [])) + 63) / 64).
+  { unfold nmini, mini_sectors_of, mini_cutoff.
+    destruct ((0 <? Z.of_nat (length (nth j contents []))) && (Z.of_nat (length (nth j contents [])) <? 4096)) eqn:Eb; [|lia].
+    rewrite Z2Nat.id; [reflexivity|]. apply Z.div_pos; lia. }
+  assert (Hpos : (0 < nmini (Z.of_nat (length (nth j contents []))))%nat) by lia.
+  split.
+  - (* the container through the FAT *)
+    rewrite <- Elen. replace (g_ministream_start g - 1) with (nth jc st FREE) by (rewrite <- Hcont, Lsz; reflexivity).
+    rewrite <- Ecb at 2 3.
+    apply read_back; try lia.
+    + cbn [length]. rewrite app_length. cbn [length]. lia.
+    + assumption.
+    + apply Hwalk; [lia|]. rewrite Elen.
+      (* a non-empty stream below the cutoff needs at least one mini sector, hence a non-empty container *)
+      specialize (Hmin j Hjm). rewrite Enm in Hmin.
+      specialize (Hmord O j).
+      assert (0 <= nth j mst FREE).
+      { destruct (minifat_table_chains fuel sizes npaths g mt mst Hs Hn Hloc Hmt) as (_ & _ & _ & _ & Hst & _).
+        rewrite (Hst j Hjm). lia. }
+      lia.
+    + unfold bytes in *. rewrite Ecb, Elen, Lcb. lia.
+  - (* the stream through the mini FAT and the container *)
+    unfold read_mini. rewrite <- Enm. rewrite (Hmwalk j Hjm) by (rewrite Enm; assumption).
+    specialize (Hmin j Hjm).
+    assert (Hst0 : 0 <= nth j mst FREE).
+    { destruct (minifat_table_chains fuel sizes npaths g mt mst Hs Hn Hloc Hmt) as (_ & _ & _ & _ & Hst & _).
+      rewrite (Hst j Hjm). lia. }
+    assert (Emap : map (fun m => firstn 64 (skipn (Z.to_nat (64 * m)) cb)) (seqZ (nth j mst FREE) (nth j (map nmini sizes) O))
+                   = map mimg (seqZ (nth j mst FREE) (nth j (map nmini sizes) O))).
+    { apply map_ext_in. intros m Hm. apply seqZ_In in Hm.
+      replace (Z.to_nat (64 * m)) with (64 * Z.to_nat m)%nat by lia.
+      unfold cb, container_bytes. rewrite (slice_concat _ mimg 64 0 (Z.to_nat m) Hmimg) by lia. f_equal. lia. }
+    rewrite Emap.
+    assert (H64 : (0 < 64)%nat) by lia.
+    assert (Hcl : length contents = length (map nmini sizes)) by (rewrite map_length; lia).
+    pose proof (read_back 64 mst (map nmini sizes) contents mt (fun _ => repeat 0 64) j H64 Hmlen Hcl Hmord Hjm) as RB.
+    unfold read_stream in RB. rewrite (Hmwalk j Hjm) in RB by (rewrite Enm; assumption).
+    apply RB; [reflexivity|]. rewrite Enm. unfold bytes in *. lia.
+Qed.
